@@ -73,3 +73,31 @@ Definition build_group_sorted_indexer (chunks : list (list Z)) (counts : list Z)
   let st := fold_left (indexer_step key_map mask) (concat chunks)
               {| current_pos := starts_from 0 counts; indexer := repeat 0 (Z.to_nat total); row := 0 |} in
   indexer st.
+
+(* ---- _monotonic_factorization: the run detector of the chunked route ----
+   Values are integers (floats / timestamps through their order-preserving image) or null (None:
+   NaN / NaT, which compare false with everything).  The walk over arr_list is a walk over the
+   concatenation (empty chunks are removed by the wrapper).  Only the written prefix of `codes`
+   is returned (the caller slices [:cutoff]). *)
+Record mstate := { m_codes : list Z; m_labels : list Z; m_prev : Z }.
+
+Fixpoint mono_loop (xs : list (option Z)) (i : Z) (st : mstate) : Z * mstate :=
+  match xs with
+  | [] => (i, st)
+  | None :: _ => (i, st)                                (* x != x *)
+  | Some v :: t =>
+      if v <? m_prev st then (i, st)                    (* x < prev *)
+      else
+        let labels := if m_prev st <? v then m_labels st ++ [v] else m_labels st in
+        mono_loop t (i + 1)
+          {| m_codes := m_codes st ++ [Z.of_nat (length labels) - 1]; m_labels := labels; m_prev := v |}
+  end.
+
+Definition monotonic_factorization (arr : list (option Z)) : Z * list Z * list Z :=
+  match arr with
+  | [] => (0, [], [])                                   (* not reached: the wrapper is given >= 1 row *)
+  | None :: _ => (0, [], [])
+  | Some v :: t =>
+      let '(c, st) := mono_loop t 1 {| m_codes := [0]; m_labels := [v]; m_prev := v |} in
+      (c, m_codes st, m_labels st)
+  end.
